@@ -434,7 +434,7 @@ fn gen_bytes(t: &mut Tape, st: &mut Stats) -> (String, Vec<u8>) {
         }
         1 => {
             // bytes drawn from the language's own characters
-            const CH: &[u8] = b"ab X'_019(){}[],#<=>-!&|^*+\" \n@\xc3\xa9\xff\0";
+            const CH: &[u8] = b"ab X'_019(){}[],#<=>-!&|^*+\" \n@\\\xc3\xa9\xff\0";
             let n = t.choose(48);
             ("language-characters".into(), (0..n).map(|_| CH[t.choose(CH.len())]).collect())
         }
